@@ -2293,12 +2293,18 @@ def _compute_arguments_dict_matching_score(args: Any, ref_args: Any) -> float:
         if not ref_args.search(args):
             return 0.0
     elif isinstance(ref_args, ComparisonExpression):
+        if args is ref_args:
+            # The event of a flow carries the arguments the flow was started with
+            return 1.0
         try:
             return float(ref_args.compare(args))
         except ColangValueError:
             # A value that cannot be compared does not fulfil the comparison
             return 0.0
-    elif not isinstance(ref_args, type(args)):
+    elif not isinstance(ref_args, type(args)) and not (
+        isinstance(ref_args, dict) and isinstance(args, dict)
+    ):
+        # (a dict that comes from a variable is a subclass of dict)
         return 0.0
     elif isinstance(ref_args, dict):
         argument_filter = ["return_value", "activated", "source_flow_instance_uid"]
